@@ -670,6 +670,26 @@ func init() {
 		nm.reindex()
 		return Iface{T: i.T, V: nm}
 	})
+	// hash functions implemented in assembly: concrete inputs get a fixed 64-bit
+	// FNV-1a value (only equality/ordering of hashes is ever used), symbolic inputs an uninterpreted function
+	reg("github.com/nspcc-dev/hrw/v2.Hash github.com/twmb/murmur3.Sum64", func(in *Interp, fr *frame, fn *ssa.Function, args []Value) Value {
+		inb := args[0].(Slice).A
+		h := uint64(14695981039346656037)
+		for _, e := range inb {
+			t := e.(*Term)
+			if !t.IsConst() {
+				r := in.ufBytes("hash64", inb, 8)
+				v := r[0].(*Term)
+				for _, x := range r[1:] {
+					v = in.tb.Concat(v, x.(*Term))
+				}
+				return v
+			}
+			h ^= t.C
+			h *= 1099511628211
+		}
+		return ConstBV(64, h)
+	})
 	reg("strconv.Itoa", func(in *Interp, fr *frame, fn *ssa.Function, args []Value) Value {
 		t := bv(args[0])
 		if t.IsConst() {
